@@ -330,6 +330,14 @@ class Model():
         for field_name in (left_field_name, right_field_name):
             field_assets = getattr(association, field_name)
 
+            # Only assets that are part of the model can be associated
+            for field_asset in field_assets:
+                if not any(field_asset is asset for asset in self.assets):
+                    raise ModelAssociationException(
+                        f"Asset in field {association_type}.{field_name} "
+                        "is not part of the model"
+                    )
+
             unique_field_asset_names = {a.name for a in field_assets}
             if len(field_assets) > len(unique_field_asset_names):
                 raise ModelAssociationException(
